@@ -53,6 +53,14 @@ CHECKS = {
             "Scheduling model: the OS thread of each syscall is an arbitrary symbolic value unless the goroutine has been locked to its thread since the previous syscall. On the call trace of the real LoadFilter SMT decides: NoNewPrivs => exactly one prctl(38,1,0,0,0), strictly before seccomp, on the same thread for every thread assignment; not requested => no prctl; unprivileged caller without the bit => error.",
             "The Go scheduler is represented by its only observable effect here (which thread runs each syscall); runtime.LockOSThread is modelled as pinning. Trusted: stub incl. per-thread no_new_privs ghost bit, engine, solvers.",
             "SMT-based symbolic execution of the loader over a symbolic thread-assignment model (z3 + cvc5)"),
+    "C12": (MC, "4 (C12)",
+            "The real initialisers (table literals, invert, the architecture map) are interpreted from SSA and the resulting maps are queried with symbolic keys: one SMT query per table decides the mutual-inverse obligation for every (name, number) pair, one that no name has two numbers, one per (table, oracle source) that every common name has the oracle's number; GetInfo is executed symbolically on arbitrary spellings (case handled by an uninterpreted lower()); audit ids are compared with linux/audit.h. The space is finite (about 2000 entries); the solver's contribution is that one query covers all entries and all spellings.",
+            "Trusted: vendored oracle data (/verif/oracle, provenance inside), equality-atom string encoding, engine, solvers. Names no oracle lists are not compared.",
+            "SMT queries with symbolic keys over the interpreted real tables (go/ssa symbolic execution, z3 + cvc5)"),
+    "C13": (MC, "4 (C13)",
+            "Determinism: the real compiler is run twice per shape under opposite iteration orders of every map it ranges over and SMT decides term-wise equality of the instruction lists for all values. Side effects and races: a write monitor over everything reachable from the caller's policy (spare capacity, slices shared with a twin) and over all package state must stay empty on every path of Assemble, GetInfo and the text conversions; with private write sets the DRF argument gives race freedom and independence for any number of goroutines - interleavings are reduced away, not explored. Text forms of symbolic flag/action words are equal under both map orders.",
+            "Trusted: the engine's write monitor and map-order model; the DRF reduction (Go memory model). Native replay runs the compilations concurrently under the race detector.",
+            "SMT-based symbolic execution with map order as an input plus a write-set (non-interference) analysis (z3 + cvc5)"),
 }
 
 NOT_BUILT = "check not built yet (work in progress)"
